@@ -406,7 +406,40 @@ func ext۰reflect۰Value۰Field(fr *frame, args []value) value {
 	// Signature: func (v reflect.Value, i int) reflect.Value
 	v := args[0]
 	i := args[1].(int)
-	return makeReflectValue(rV2T(v).t.Underlying().(*types.Struct).Field(i).Type(), rV2V(v).(structure)[i])
+	ft := rV2T(v).t.Underlying().(*types.Struct).Field(i).Type()
+	if a := rV2A(v); a != nil {
+		// a field of an addressable struct is addressable
+		return makeReflectValueAddr(ft, &(*a).(structure)[i])
+	}
+	return makeReflectValue(ft, rV2V(v).(structure)[i])
+}
+
+func ext۰reflect۰Value۰FieldByName(fr *frame, args []value) value {
+	st := rV2T(args[0]).t.Underlying().(*types.Struct)
+	name, ok := args[1].(string)
+	if !ok {
+		unsupported("reflect.Value.FieldByName with a symbolic name")
+	}
+	for i := 0; i < st.NumFields(); i++ {
+		if st.Field(i).Name() == name {
+			return ext۰reflect۰Value۰Field(fr, []value{args[0], i})
+		}
+	}
+	return makeReflectValue(nil, nil)
+}
+
+func ext۰reflect۰Value۰UnsafeAddr(fr *frame, args []value) value {
+	a := rV2A(args[0])
+	if a == nil {
+		panic(targetPanic{iface{types.Typ[types.String], "reflect.Value.UnsafeAddr of unaddressable value"}})
+	}
+	return uintptr(unsafe.Pointer(a))
+}
+
+func ext۰reflect۰NewAt(fr *frame, args []value) value {
+	t := args[0].(iface).v.(rtype).t
+	p, _ := args[1].(unsafe.Pointer)
+	return makeReflectValue(types.NewPointer(t), (*value)(p))
 }
 
 func ext۰reflect۰Value۰Float(fr *frame, args []value) value {
@@ -473,7 +506,18 @@ func ext۰reflect۰Value۰IsValid(fr *frame, args []value) value {
 }
 
 func ext۰reflect۰Value۰Set(fr *frame, args []value) value {
-	// TODO(adonovan): implement.
+	a := rV2A(args[0])
+	if a == nil {
+		panic(targetPanic{iface{types.Typ[types.String], "reflect.Value.Set using unaddressable value"}})
+	}
+	dt := rV2T(args[0]).t
+	v := rV2V(args[1])
+	if types.IsInterface(dt) {
+		if _, isI := v.(iface); !isI {
+			v = iface{rV2T(args[1]).t, v}
+		}
+	}
+	fr.i.store(dt, a, copyVal(v))
 	return nil
 }
 
